@@ -60,6 +60,36 @@ def eq_sides(C, b, cnd, truth):
     return None, None
 
 
+def x_info_built_from_request(C, rep, rid):
+    rep.rule(rid, "every TrampolineInfo the extractor hands out is constructed there, from this request's metadata, behind the gates (hash, signature, amount table): none is taken from elsewhere (a cached / previously stored info skips the gates for this HTLC)")
+    F, X = C.F, C.X
+    exts = [b for b in F.code_bodies() if b.kind in ("Fn", "AssocFn") and b.ret_ty.replace(" ", "").startswith("std::result::Result<std::option::Option<" + TINFO)]
+    if not rep.anchor(rid, "extractor fn (-> Result<Option<TrampolineInfo>>)", len(exts), 1):
+        return
+    for b in exts:
+        fn = F.root_of(b)
+        bfile = b.span.get("f")
+        keep = lambda n, bfile=bfile: F.by_cdef.get(n) is None or F.by_cdef[n].span.get("f") != bfile or n.startswith("<")   # noqa: E731
+        defs = mm.def_alternatives(F, X, b, {"k": "move", "pl": {"l": 0, "p": []}})
+        n = 0
+        for e, vf, cf, wh in defs:
+            e = strip(e)
+            if not (e[0] == "agg" and e[2] == "Ok" and e[3]):
+                continue
+            for pa in alts(strip(e[3][0][1])):
+                if not (pa[0] == "agg" and pa[2] == "Some" and pa[3]):
+                    if pa[0] == "agg" and pa[2] == "None":
+                        continue
+                    pa = ("agg", "std::option::Option", "Some", (("0", ("field", "0", "std::option::Option", "Some", pa)),), None)
+                n += 1
+                for x in alts(strip(mm.inline_pure(F, X, strip(pa[3][0][1]), depth=2, keep=keep))):
+                    ok = x[0] == "agg" and canon(x[1]) == TINFO
+                    where = loc(b.term(wh[1])["sp"]) if wh and wh[0] == b.cdef and wh[1] is not None and wh[1] < len(b.blocks) else loc(b.span)
+                    rep.ob(rid, ok, fn, "returned TrampolineInfo is constructed by the extractor", where=where, how="struct literal" if ok else "",
+                           detail="" if ok else "the extractor returns %s as the HTLC's trampoline info: it was not built from this request behind the hash / signature / amount gates" % show(x)[:120])
+        rep.anchor(rid, "Ok(Some(info)) results of the extractor", n, 1, fn=fn)
+
+
 def g_hash_gate(C, rep, rid):
     rep.rule(rid, "every TrampolineInfo is built behind `invoice.payment_hash() == htlc.payment_hash` on the same invoice")
     F, X = C.F, C.X
